@@ -124,7 +124,8 @@ class Symbol(ExpressionToken):
             if extern:
                 # The current file may still define its own symbol with this name further down, and that
                 # definition takes precedence: don't bind to another file's symbol until everything is compiled
-                not_ready()
+                if not compiler.all_files_compiled:
+                    not_ready()
                 return extern
 
         not_ready()
